@@ -24,8 +24,8 @@ def lazy_indices_product(args: list[int]):
     :return: 'lazy' cartesian product
     """
     moduli = args
-    denominators = [1] + list(accumulate(reversed(moduli[1:]), mul))
-    nb_of_elements = denominators[-1] * args[0]
+    denominators = [1] + list(accumulate(moduli[:-1], mul))
+    nb_of_elements = denominators[-1] * moduli[-1]
 
     for n in range(nb_of_elements):
         yield tuple(
